@@ -2,11 +2,9 @@ package main
 
 import (
 	"fmt"
-	"os"
 	"sort"
 	"strings"
 	"sync/atomic"
-	"time"
 
 	"verifharness/ref/hpackx"
 	"verifharness/vkit"
@@ -599,15 +597,6 @@ func c30bCheck(r *vkit.Run, bc c30bCase) {
 		c30bObserve(site, prefix, v)
 	}
 	c30C.add("directed_cases:"+bc.fam, 1)
-	tStart := time.Now()
-	defer func() {
-		if os.Getenv("C30B_PROF") != "" {
-			c30C.add("prof_ms:"+bc.fam, time.Since(tStart).Milliseconds())
-			if d := time.Since(tStart); d > 500*time.Millisecond {
-				fmt.Fprintf(os.Stderr, "c30b: %s took %v\n", bc.fam, d)
-			}
-		}
-	}()
 	if r.Try(func() interface{} { return c }, func() { c30Run(r, c, "bfe", obs) }) {
 		return
 	}
@@ -728,11 +717,7 @@ func c30bFinish(r *vkit.Run, replay bool) {
 const c30bRule = " BOUNDARY-DIRECTED PART (c30b.go; same oracle, same three observers): every integer bfe's encoder writes - indexed field (7-bit prefix), name index of a literal with incremental indexing (6) / without indexing (4; not sensitive, entry larger than the table) / never indexed (4; sensitive), dynamic table size update (5), length of a new name and of a value sent raw or Huffman coded (7; Huffman strings are built so that their ENCODED length is the target and is strictly shorter than the string, raw strings from octets with >= 8-bit codes) - is forced to 2^N-1+{-1,0,1,127,128,129,255,256,16383,16384,16385,2097151,2097152} and swept: every string length 0..600 and 16000..17000 (thorough 0..4200, 15800..17200) x {name,value} x {raw,Huffman}; every table size update 0..4096 (thorough 0..20000) ascending, descending and in seeded order, 16300..16500, the boundary string lengths up to 2 MiB+127 (thorough also +-1 around the 2 MiB ones); the boundary sizes up to 2 MiB+31 singly and as minimum-then-final pairs (SETTINGS_HEADER_TABLE_SIZE and the encoder's limit raised accordingly); every dynamic-table position 1..400 (thorough 1..1100; table of uniform 37-octet entries with unique names, SETTINGS 16384/65536) referenced as indexed field, never-indexed name, without-indexing name (value longer than the table) and incremental-indexing name, plus a second seeded position; all 61 static entries the same four ways; one table of 16520 entries for the 16383..16385 deltas of the index sites; 400 (thorough 12000) seeded histories mixing these steps in one context. Not generated: index values 2^N-1+2097151.. (2 million table entries, bfe's encoder searches linearly) and name index 14 (':status' is always named by entry 8). What was written is OBSERVED: the RFC model reports each integer parsed from bfe's emitted stream; the run is inconclusive if a required boundary value or any value of a sweep never appeared. Directed history non-trivial = bfe's stream carried >= 1 integer of >= 2 octets."
 
 func c30b(r *vkit.Run) {
-	t0 := time.Now()
 	cases := c30bCases(r)
-	if os.Getenv("C30B_PROF") != "" {
-		fmt.Fprintf(os.Stderr, "c30b: %d cases generated in %v\n", len(cases), time.Since(t0))
-	}
 	// big cases first so that they overlap with the many small ones
 	sort.SliceStable(cases, func(i, j int) bool { return cases[i].weight > cases[j].weight })
 	vkit.Parallel(len(cases), 0, func(i int) { c30bCheck(r, cases[i]) })
